@@ -10,7 +10,7 @@ from .. import gen, tracer
 from . import runlevel
 
 EXC_KINDS = ["raise", "raise_noargs", "raise_assert", "raise_keyerror", "raise_stopiteration", "raise_generatorexit"]
-KINDS_ALL = EXC_KINDS + ["nan", "posinf", "neginf", "complex", "vector", "none"]
+KINDS_ALL = EXC_KINDS + ["nan", "posinf", "neginf", "complex", "vector", "none", "wrapped_nan", "wrapped_inf", "wrapped_complex", "wrapped_nan_array"]
 EXC_OF = {"raise": "InjectedFault", "raise_noargs": "InjectedFault", "raise_assert": "AssertionError", "raise_keyerror": "KeyError",
           "raise_stopiteration": "StopIteration", "raise_generatorexit": "RuntimeError"}
 KINDS_HE = ["notpair", "sdzero", "sdneg", "sdnan", "sdinf"]
@@ -72,7 +72,7 @@ def run(ctx):
         ks, calls = positions(t, rng, ctx.tier)
         kinds = KINDS_ALL + (KINDS_HE if sp["mode"] == "he" else [])
         for k in ks:
-            use = kinds if ctx.tier != "quick" else rng.sample(kinds, min(len(kinds), 4)) + rng.sample(EXC_KINDS, 3)
+            use = kinds if ctx.tier != "quick" else rng.sample(kinds, min(len(kinds), 6)) + rng.sample(EXC_KINDS, 3)
             for kind in sorted(set(use)):
                 jobs.append((sp, {"fault": {k: kind}, "want": ("ctl",)}))
                 phase = next((e["phase"] + ("" if e["rec"] else "/norec") for e in calls if e["k"] == k), "?")
